@@ -5,6 +5,8 @@ pub mod json;
 pub mod prng;
 pub mod refmath;
 pub mod report;
+pub mod rescue_consts;
+pub mod rescue_ref;
 
 pub use json::{hex, J};
 pub use prng::{fnv, Rng};
